@@ -36,7 +36,7 @@ func BreakTarget(r *rand.Rand, c *Case) string {
 		case KPtr, KSlice, KArray:
 			walk(func() *Type { return t.Elem }, func(n *Type) { t.Elem = n }, path+"/elem", depth+1)
 		case KMap:
-			walk(func() *Type { return t.Key }, func(n *Type) { t.Key = n }, path+"/key", depth+1)
+			// map keys are left alone: most mutations would make the key type invalid (not comparable)
 			walk(func() *Type { return t.Elem }, func(n *Type) { t.Elem = n }, path+"/val", depth+1)
 		case KStruct:
 			for _, f := range t.Fields {
@@ -80,6 +80,11 @@ func BreakTarget(r *rand.Rand, c *Case) string {
 		case 4: // pointer removed (needs the flag)
 			if t.K == KPtr {
 				s.set(t.Elem)
+				if byValueCycle(m.Result, map[*Decl]bool{}) {
+					// the pointer was what made a recursive type valid: T would contain itself
+					s.set(t)
+					continue
+				}
 				return s.path + ": *T -> T"
 			}
 		case 5: // map -> slice
@@ -95,4 +100,45 @@ func BreakTarget(r *rand.Rand, c *Case) string {
 		}
 	}
 	return ""
+}
+
+// byValueCycle reports whether t contains a named type by value that contains itself by value (invalid Go).
+func byValueCycle(t *Type, open map[*Decl]bool) bool {
+	return byValueCycleRec(t, open, map[*Decl]bool{})
+}
+
+func byValueCycleRec(t *Type, open, done map[*Decl]bool) bool {
+	switch t.K {
+	case KNamed:
+		if len(t.Args) > 0 {
+			return false
+		}
+		if open[t.Decl] {
+			return true
+		}
+		if done[t.Decl] {
+			return false
+		}
+		done[t.Decl] = true
+		open[t.Decl] = true
+		defer delete(open, t.Decl)
+		return byValueCycleRec(t.Decl.Under, open, done)
+	case KArray:
+		return byValueCycleRec(t.Elem, open, done)
+	case KStruct:
+		for _, f := range t.Fields {
+			if byValueCycleRec(f.T, open, done) {
+				return true
+			}
+		}
+	case KPtr, KSlice, KMap:
+		// an indirection ends the by-value chain; the types below must be valid themselves
+		if t.Elem != nil && byValueCycleRec(t.Elem, map[*Decl]bool{}, done) {
+			return true
+		}
+		if t.K == KMap && t.Key != nil && byValueCycleRec(t.Key, map[*Decl]bool{}, done) {
+			return true
+		}
+	}
+	return false
 }
